@@ -51,6 +51,9 @@ def selftest_property(ctx, prop: str, ss: SourceSet):
         ms = apply(ss, file, old, new)
         if ms is None:
             skipped += 1
+            ctx.notes.append(f"mutant {mid} no longer applies")
+            if __import__("os").environ.get("VERIF_VERBOSE"):
+                print("SKIPPED mutant", mid)
             continue
         res = verdicts(prop, ms)
         new_viol = [r for r in res if r.verdict == report.VIOLATION and r.key() not in base_viol]
